@@ -912,6 +912,27 @@ class Interp:
     def s_For(self, st, s, fr):
         it = self.eval(st, s.iter, fr)
         it = st.force(it)
+        if getattr(it, "is_iterator", False):
+            # `for x in <iterator object>` (builtins_model.ListIter): one `next()` per iteration, so that the iterator
+            # is left where a `break` stops and what follows (`lst.extend(it)`, another loop) sees only the rest;
+            # unrolled -- an invariant over an iterator object is not supported
+            spec = self.loop_spec(fr, s)
+            if spec is not None and spec.invariant is not None:
+                raise Unsupported("loop invariant on a for loop over an iterator object")
+            n = 0
+            while it.more(st):
+                n += 1
+                if n > self.max_unroll:
+                    raise Unsupported("for loop over an iterator unrolled beyond the limit")
+                self.assign_target(st, s.target, it.step(self, st), fr)
+                try:
+                    self.exec_block(st, s.body, fr)
+                except _Break:
+                    return
+                except _Continue:
+                    continue
+            self.exec_block(st, s.orelse, fr)
+            return
         seq = self.iter_view(st, it)
         if isinstance(seq, Q.GuardedSeq):
             raise Unsupported("for statement over a collection with symbolic membership (seqs.GuardedSeq: folds only)")
